@@ -22,7 +22,7 @@ func checkC12(p *Prog, r *Report) {
 	hs := p.ServerHandlers("MsgServer")["x/pnft"]
 	r.Floor("pnft-handlers", len(hs), 7)
 	// the listings decode every token's metadata into a fresh variable (a reused target shows one token's fields in the next)
-	r.Floor("in-loop-decode-targets(x/pnft)", checkLoopFreshDecode(p, r, "C12", func(fn *ssa.Function) bool { return InPkgs(fn, "x/pnft") }), 1)
+	r.Count("in-loop-decode-targets(x/pnft)", checkLoopFreshDecode(p, r, "C12", func(fn *ssa.Function) bool { return InPkgs(fn, "x/pnft") })) // no floor: the loop may legitimately move into a generic mapper (the fixture is the control)
 	delim, okD, re, dpos := globalByteSliceLit(p, nftKeeperPath, "Delimiter")
 	if !okD || re > 0 || len(delim) != 1 {
 		r.Fail(kp("CONST", "nft.Delimiter"), "x/nft's key delimiter is a one-byte constant", p.Pos(dpos), fmt.Sprintf("literal=%v reassigned=%d value=%v", okD, re, delim))
